@@ -129,8 +129,23 @@ def decisions(text):
                 la, lb = leaves(a), leaves(b)
                 if not la and not lb:
                     continue
-                # comparisons with a literal boolean are wrappers of the inner decision
+                # comparisons with a literal boolean are wrappers of the inner decision; a comparison METHOD (`U256::lt(a, b)`,
+                # `Byte32::eq(a, b)`) wrapped that way is a decision between its two arguments
                 if a.strip() in ('true', 'false') or b.strip() in ('true', 'false'):
+                    inner = (b if a.strip() in ('true', 'false') else a).strip()
+                    mm = re.match(r'^(?:<[^<>]*? as [^<>]*?>|[A-Za-z_]\w*)(?:::\w+)*::(lt|le|gt|ge|eq|ne)\((.*)\)$', inner, re.S)
+                    if mm:
+                        parts = _top_split(mm.group(2), [', '])
+                        if len(parts) == 2:
+                            la, lb, op = leaves(parts[0]), leaves(parts[1]), mm.group(1)
+                            if op in ('eq', 'ne'):
+                                if sorted(lb) < sorted(la):
+                                    la, lb = lb, la
+                                out.add(('cmp', 'eq/ne', la, lb))
+                            elif op in ('lt', 'ge'):
+                                out.add(('cmp', 'lt/ge', la, lb))
+                            else:
+                                out.add(('cmp', 'lt/ge', lb, la))
                     continue
                 # one decision = a test and its negation: `x < y`, `x >= y` (same test, other branch), `y > x`, `y <= x`
                 # all become lt(x, y); `x <= y` / `x > y` / `y >= x` / `y < x` become lt(y, x); == and != become eq{x, y}
@@ -210,7 +225,7 @@ def _subsim(core, other):
     """`core` (reviewed argument / value leaves) is still what `other` is built from."""
     ca, co, cn = _classes(core)
     oa, oo, on = _classes(other)
-    return co <= oo and (cn <= on or (on <= cn and on))
+    return co == oo and (cn <= on or (on <= cn and on))
 
 
 def _covered(f, actual):
@@ -259,3 +274,78 @@ def render(f):
     if f[0] == 'effect':
         return 'call %s with arguments from %s' % (f[1], s(f[2]))
     return 'write involving %s' % s(f[1])
+
+
+def path_decisions(e):
+    """Decisions on the path of one exit / effect (nested ones — inside adaptor closures, phi alternatives — included)."""
+    D = set()
+    for a in list(e.get('full', [])) + list(e.get('trigger', [])):
+        D |= decisions(a)
+    return D
+
+
+def _group(e):
+    if e.get('cls') == 'accept':
+        return 'success'
+    if e.get('cls') == 'sink':
+        m = re.match(r'^(?:in closure: )?call ([^(]+)\(', e.get('label', ''))
+        return 'effect ' + m.group(1).strip() if m else None
+    return None
+
+
+def bypassed(reviewed_exits, actual_exits):
+    """Reviewed decisions that EVERY reviewed way to succeed / to perform an effect passes, and that some current way to succeed /
+    perform that effect does not pass: [(group, decision, label of the bypassing exit)].  (A new early `return Ok(..)`, a write
+    moved in front of its check, a fast path: nothing is lost from the function, but the check is no longer on the path.)"""
+    must = {}
+    for e in reviewed_exits:
+        g = _group(e)
+        if g is None:
+            continue
+        d = path_decisions(e)
+        must[g] = d if g not in must else {f for f in must[g] if _covered(f, d)}
+    out = []
+    for a in actual_exits:
+        g = _group(a)
+        if g is None or not must.get(g):
+            continue
+        d = path_decisions(a)
+        for f in sorted(must[g], key=repr):
+            if not _covered(f, d):
+                out.append((g, f, a.get('label', '')))
+    return out
+
+
+def value_tokens(label):
+    """Ordered non-plumbing tokens of a returned-value description (alternatives `{A | B}` keep their place): two versions
+    that compute the result from the same things in the same way agree, whatever the conditions around them look like."""
+    out = []
+    text = _strip_next(re.sub(r'^in closure: ', '', label or ''))
+    # an abbreviated sub-description stands for its full text: its digest is part of the value
+    out.extend(sorted(re.findall(r'…#[0-9a-f]{8,12}', text)))
+    for m in _TOKEN.finditer(text):
+        t = m.group(0)
+        if t.startswith('"') or re.fullmatch(r'c\d+(?:\.arg\d+)?', t):
+            continue
+        if '::' in t and _PLUMBING.match(t):
+            continue
+        out.append(t)
+    return tuple(out)
+
+
+def new_values(reviewed_exits, actual_exits):
+    """Successful / value-returning exits whose returned value is not computed like any reviewed one."""
+    known = {value_tokens(e.get('label', '')) for e in reviewed_exits if e.get('cls') in ('accept', 'exact')}
+    known_sets = [set(k) for k in known]
+    out = []
+    for a in actual_exits:
+        if a.get('cls') not in ('accept', 'exact') or _effect(a.get('label', '')):
+            continue
+        vt = value_tokens(a.get('label', ''))
+        if not vt or vt in known:
+            continue
+        # the same tokens in another order (operands of a commutative description) are the same value
+        if any(sorted(vt) == sorted(k) for k in known):
+            continue
+        out.append(a.get('label', ''))
+    return out
